@@ -45,7 +45,7 @@ PROPS = {
         K('window_recovery_contract', 'C06.kani.time_based_recovery_in_range_never_decreases_at_most_120_fast_recovery_left_at_12000',
           note='alloc::fmt::format stubbed (debug-only string on the growth path)'),
     ]),
-    'C08': dict(units=['core_all', 'hk', 'events', 'drain'], level='proof'),
+    'C08': dict(units=['core_all', 'hk', 'events', 'drain', 'conns'], level='proof'),
     'C12': dict(units=['core_all', 'events', 'drain'], level='proof'),
     'C13': dict(units=['core_all', 'events'], level='proof', kani=[
         K('effective_stall_window_formula', 'C13.kani.effective_window_is_clamp_4srtt_1000_ceiling_and_pull_window_below_it'),
@@ -69,7 +69,7 @@ PROPS = {
         K('cc_tick_grows_only_when_climbing_and_never_beyond_2x_measured', 'C16.kani.tick.grows_only_when_climbing_and_never_beyond_twice_the_measured_rate', tier='thorough',
           note='comparison-only clauses; about 2 min of CBMC'),
     ]),
-    'C17': dict(units=['cls'], level='proof'),
+    'C17': dict(units=['cls', 'core_all'], level='proof'),
     'C18': dict(units=['ctl'], level='proof',
                 not_covered=['control_socket.rs line framing (tokio::select! loop)', 'concurrent setters and snapshot readers (atomics sequentialised)', 'serde_json itself (parsing, typed accessors, Response::to_json)', 'subscription handlers']),
     'C19': dict(units=['reload', 'events', 'conns'], level='proof'),
